@@ -69,6 +69,8 @@ typedef struct actor {
     volatile int suspended;    /* between self-suspend call and its return */
     volatile int resumes_issued, suspends_returned;
     volatile int pc_at_join, join_seen;
+    volatile uint64_t cancel_ret_tick;
+    volatile int suspends_called, resume_rounds_done, seen_terminated;
 } actor;
 
 typedef struct {
